@@ -1,7 +1,6 @@
 package props
 
 import (
-	"sync"
 	"fmt"
 	"go/ast"
 	"go/constant"
@@ -10,6 +9,7 @@ import (
 	"reflect"
 	"sort"
 	"strings"
+	"sync"
 
 	"siotcheck/kit"
 )
@@ -111,7 +111,6 @@ func c10ClauseCalls(f *kit.Func, cc *ast.CaseClause) (refl map[string]bool, fns 
 	}
 	return
 }
-
 
 // c10IsPlainHelper: an unexported function of the same package without a kind
 // switch of its own; what it does is attributed to the arm that calls it.
